@@ -10,6 +10,7 @@ package dag
 import (
 	"context"
 	"fmt"
+	"strings"
 	"sync"
 	"testing"
 	"time"
@@ -68,7 +69,7 @@ func c08GenState(t *rapid.T) c08StateCase {
 	c := c08StateCase{Shape: dagshape.Gen(t, p)}
 	n := rapid.IntRange(3, 24).Draw(t, "nops")
 	for i := 0; i < n; i++ {
-		k := rapid.SampledFrom([]string{"add", "add", "add", "add", "badpayload", "failwrite", "failput", "failput", "cancel", "dup", "orphan", "reopen", "concurrent", "sched", "sched", "repair"}).Draw(t, "k")
+		k := rapid.SampledFrom([]string{"add", "add", "add", "add", "badpayload", "failwrite", "failput", "failput", "cancel", "dup", "orphan", "reopen", "concurrent", "sched", "sched", "repair", "repairrace"}).Draw(t, "k")
 		op := c08Op{K: k, Sel: rapid.Uint32().Draw(t, "sel")}
 		switch k {
 		case "add":
@@ -323,10 +324,21 @@ func c08RunState(x *h.Ctx, c c08StateCase) {
 					f.ref.set = f.ref.set // keep model as is: addOne recorded the tx as added
 				}
 				rollbacks++
-				// the truth is on disk: restart and compare
-				f.close()
-				f.open()
-				reopens++
+				// first the live state: a failed Put on a digest page must not leave the transaction in the in-memory trees or
+				// in the highest clock (the rollback reload) ...
+				f.check(step, "failput-live", op.Sel)
+				if len(x.Violations()) > 0 {
+					return
+				}
+				// ... then, half of the time, the truth on disk: restart and compare (otherwise the history goes on with the
+				// live state, so that the redelivery meets whatever the failed attempt left behind)
+				if (op.Sel/16)%2 == 0 {
+					f.close()
+					f.open()
+					reopens++
+				} else {
+					x.Class("failput:no-restart")
+				}
 			}
 		case "cancel":
 			// the caller's context is cancelled after the write body ran, before commit: the store rolls the transaction back
@@ -489,6 +501,71 @@ func c08RunState(x *h.Ctx, c c08StateCase) {
 			scheds++
 			if len(trace) >= 4 && trace[0][1:] == "R" && trace[1][1:] == "R" && trace[0][:1] != trace[1][:1] {
 				x.Class("sched:both-read-before-any-write")
+			}
+		case "repairrace":
+			// the page repair races with an admission on the page under repair: harness-owned interleaving of the repair's and the
+			// Add's storage transactions. Whatever the order, afterwards the page digest must cover exactly the stored transactions.
+			if len(f.ref.set) == 0 || next >= len(order) {
+				continue
+			}
+			{
+				t := txs[order[next]]
+				page := t.Tx.Clock() / PageSize
+				garbage := tree.NewXor()
+				garbage.Insert(hash.SHA256Sum([]byte(fmt.Sprintf("garbage-race-%d", op.Sel))))
+				err := f.kv.Write(f.ctx, func(tx stoabs.WriteTx) error {
+					f.st.xorTree.mutex.Lock()
+					defer f.st.xorTree.mutex.Unlock()
+					if err := f.st.xorTree.tree.Replace(page*PageSize, garbage); err != nil {
+						return err
+					}
+					return f.st.xorTree.writeWithoutLock(tx)
+				})
+				x.NoErr(err, "corrupt page")
+				f.st.IncorrectStateDetected()
+				f.st.IncorrectStateDetected()
+				f.st.xorTreeRepair.mutex.Lock()
+				f.st.xorTreeRepair.currentPage = page
+				f.st.xorTreeRepair.mutex.Unlock()
+				var schedule []int
+				v := op.Sel
+				for k := 0; k < 8; k++ {
+					schedule = append(schedule, int(v%2))
+					v /= 2
+				}
+				sch := vdNewSched(2)
+				var addErr error
+				// the repair runs its storage transactions with a background context: everything that is not the Add is actor 0
+				f.kv.setGate(func(ctx context.Context, kind string) {
+					if _, isActor := ctx.Value(vdActorKey{}).(int); !isActor {
+						ctx = sch.ctx(0)
+					}
+					sch.gate(ctx, kind)
+				})
+				trace, ok := sch.run(schedule, func(a int) {
+					if a == 0 {
+						f.st.xorTreeRepair.checkPage()
+					} else {
+						addErr = f.st.Add(sch.ctx(1), t.Tx, t.Payload)
+					}
+				}, 60*time.Second)
+				f.kv.setGate(nil)
+				if !ok {
+					x.Fatalf("scheduler timed out (repairrace), trace %v", trace)
+				}
+				f.st.CorrectStateDetected()
+				x.Logf("step %d repairrace page %d trace %v", step, page, trace)
+				if addErr != nil {
+					x.Violate("state-sched-add-error", "step %d: Add of valid transaction %d failed while the page repair ran (%v): %v", step, order[next], trace, addErr)
+					return
+				}
+				f.ref.add(t.Tx)
+				f.added[t.Tx.Ref()] = true
+				f.pay[t.Tx.PayloadHash()] = t.Payload
+				next++
+				repairs++
+				scheds++
+				x.Class("repairrace:" + strings.Join(trace, ","))
 			}
 		case "repair":
 			if len(f.ref.set) == 0 {
